@@ -41,10 +41,11 @@ struct Arena {
     }
     bump = 0;
   }
+  bool pack = false;
   void* alloc(size_t n) {
     size_t need = (n + 15) & ~(size_t)15;
     if (need == 0) need = 16;
-    need += 16;  // gap so blocks never touch (filled 0xEE)
+    if (!pack) need += 16;  // gap so blocks never touch (filled 0xEE); a packing allocator leaves none
     if (bump + need > cap) return nullptr;
     unsigned char* p = base + bump;
     bump += need;
@@ -102,7 +103,7 @@ unsigned char* backend_alloc(size_t n, int* arena_idx) {
     case BE_ARENA: {
       *arena_idx = S.cur_arena;
       unsigned char* p = (unsigned char*)S.arena[S.cur_arena].alloc(n);
-      if (p) { if (!g_nofill) memset(p, S.knobs.fill, n); memset(p + n, 0xEE, (((n + 15) & ~(size_t)15) ? ((n + 15) & ~(size_t)15) : 16) + 16 - n); }
+      if (p) { if (!g_nofill) memset(p, S.knobs.fill, n); size_t rounded = ((n + 15) & ~(size_t)15) ? ((n + 15) & ~(size_t)15) : 16; memset(p + n, 0xEE, rounded + (S.knobs.pack ? 0 : 16) - n); }
       return p;
     }
     case BE_TAG: {
@@ -188,12 +189,13 @@ void sa_reset(const SaKnobs& k) {
   S.knobs = k;
   if (k.backend == BE_ARENA) {
     if (!S.arenas_ready) { S.arena[0].init((size_t)256 << 20); S.arena[1].init((size_t)64 << 20); S.arenas_ready = true; }
-    S.arena[0].reset(); S.arena[1].reset();
+    S.arena[0].reset(); S.arena[1].reset(); S.arena[0].pack = S.arena[1].pack = k.pack;
   } else if (S.arenas_ready) { S.arena[0].reset(); S.arena[1].reset(); }
   S.cur_arena = 0;
 }
 
 const SaKnobs& sa_knobs() { return S.knobs; }
+void sa_set_max_request(uint64_t n) { S.knobs.max_request = n; }
 
 void sa_begin(const FaultSpec& f) {
   OpWindow& w = W();
@@ -255,7 +257,7 @@ void sa_check_integrity() {
     for (auto& b : S.blocks) {   // gaps between blocks must still hold 0xEE
       if (S.arena[b.arena].ro) continue;
       size_t rounded = ((b.size + 15) & ~(size_t)15); if (!rounded) rounded = 16;
-      for (size_t i = b.size; i < rounded + 16; i++) if (b.user[i] != 0xEE) {
+      for (size_t i = b.size; i < rounded + (S.knobs.pack ? 0 : 16); i++) if (b.user[i] != 0xEE) {
         fail("C13,C04,C07", "alloc:write-past-block", fmt("byte %zu past the end of block #%llu (size %zu) was modified", i - b.size, (unsigned long long)b.id, b.size));
         return;
       }
